@@ -73,7 +73,7 @@ class Check:
         need_plain = bool(sp.get("gens")) or any(not c.get("e2e") for c in comps)
         need_e2e = any(c.get("e2e") for c in comps)
         self.bins = {}
-        first = (sp.get("gens") or [None])[0] or (comps[0]["comp"] if comps else None)
+        first = (comps[0]["comp"] if comps else None) or (sp.get("gens") or [None])[0]
         for e2e in ([False] if need_plain else []) + ([True] if need_e2e else []):
             b, err = core.build_harness(comp=sp.get("build_comp", first), e2e=e2e)
             if b is None:
